@@ -79,7 +79,7 @@ def run_case(case: dict) -> CaseResult:
     K = float(case.get("K", 4.0))
     named = bool(case.get("named", True))
     addr_kind = case.get("addr", "ip")
-    cli = make_client(env, address={"ip": "10.0.0.1", "name": "dev.example.com", "mdns": "dev.local"}[addr_kind], keepalive=K, expected_name="dev", password="pw")
+    cli = make_client(env, address={"ip": "10.0.0.1", "name": "dev.example.com", "mdns": "dev.local", "mdns_dot": "dev.local.", "bare": "dev"}[addr_kind], keepalive=K, expected_name="dev", password="pw")
     plan = case["plan"]
     viol = res.violations
     classes: set[str] = set()
@@ -92,7 +92,7 @@ def run_case(case: dict) -> CaseResult:
         dev.invalid_password = False
         dev.on_frame = None
         env.dns["dev.example.com"] = ("ok", ["10.0.0.9"], D)
-        env.dns["dev.local"] = ("error", D)
+        env.dns["dev.local"] = env.dns["dev.local."] = env.dns["dev"] = ("error", D)
         # (addr "mdns": every attempt looks the name up through the client's zeroconf manager -- the one the reconnect
         # manager listens on when the library had to create the instance itself)
         world.mdns["dev"] = {"outcome": "ok", "v4": ["10.0.0.9"], "delay": D}
@@ -100,7 +100,7 @@ def run_case(case: dict) -> CaseResult:
         if kind == "resolve_error":
             if addr_kind == "ip":
                 env.tcp_script = [("oserror", D)]
-            elif addr_kind == "mdns":
+            elif addr_kind in ("mdns", "mdns_dot", "bare"):
                 world.mdns["dev"] = {"outcome": "none", "delay": D}
             else:
                 env.dns["dev.example.com"] = ("error", D)
@@ -296,7 +296,8 @@ def judge(env, world, case, viol, classes) -> None:
     disc_cb = None             # (call time, stale slot instants) of the on_disconnect callback currently running / last run
     record_in_error_cb = False  # a matching record reached the manager while the user's on_connect_error callback was still running
     must_listen_since = None   # set at a failure report: from then on (later instants) a named, started, idle manager must be registered
-    named = bool(case.get("named", True))
+    # (without an explicit name the manager derives it from a bare / .local client address, trailing dot or not)
+    named = bool(case.get("named", True)) or case.get("addr") in ("mdns", "mdns_dot", "bare")
     pending_mandatory: list = []   # (t, why, seq)
     event_times = sorted(e["t"] for e in tr if e["kind"] in ("rl_on_error", "rl_on_disconnect_ret", "rl_on_connect", "rl_start", "rl_stop_call", "rl_stop_returned", "mdns_deliver", "conn_new", "end_injected"))
 
@@ -587,7 +588,7 @@ def _case(draw, tier):
         else:
             events.append({"t": tt, "do": "end", "how": "reset"})
     events.sort(key=lambda e: e["t"])
-    case = {"named": draw(st.integers(0, 5)) != 0, "addr": draw(st.sampled_from(["ip", "ip", "name", "mdns"])), "K": 4.0, "plan": plan, "events": events, "horizon": draw(st.sampled_from([200, 400]))}
+    case = {"named": draw(st.integers(0, 5)) != 0, "addr": draw(st.sampled_from(["ip", "ip", "name", "mdns", "mdns_dot", "bare"])), "K": 4.0, "plan": plan, "events": events, "horizon": draw(st.sampled_from([200, 400]))}
     if draw(st.integers(0, 3)) == 0:
         # slow user callbacks; start()/stop() racing with a callback that is still running is outside the statement,
         # so these histories keep only the initial start()
@@ -610,7 +611,15 @@ def _mdns_addr_cases():
         yield {"named": True, "addr": "mdns", "K": 4.0, "plan": [kind, kind, ["ok"]], "events": [{"t": 0, "do": "start"}, {"t": 64 * 30, "do": "end", "how": "discreq"}, {"t": 64 * 60, "do": "stop"}], "horizon": 200}
 
 
+def _derived_name_cases():
+    """No name= given: the manager derives it from the client address (bare name, x.local, x.local.) and listens."""
+    for addr in ("mdns", "mdns_dot", "bare"):
+        for rec in ("ptr", "a"):
+            yield {"named": False, "addr": addr, "K": 4.0, "plan": [["refuse", 2], ["refuse", 2], ["ok"]], "events": [{"t": 0, "do": "start"}, {"t": 64 * 4, "do": "mdns", "rec": rec}], "horizon": 120}
+
+
 def enumerated(tier):
+    yield from _derived_name_cases()
     yield from _mdns_addr_cases()
     # exact back-off ladder: k failures then success, for every failure kind
     for kind in (["refuse", 2], ["resolve_error"], ["garbage"], ["badname"]):
